@@ -125,10 +125,11 @@ structure Params where
 structure Variant where
   resetEntryPoint : Bool   -- fresh scan sets entry_point = YR_UNDEFINED
   cleanStale : Bool        -- fresh scan cleans a still pending (abandoned) suspended scan
+  resumeNeedsPending : Bool := true   -- a call is a continuation only if a suspended scan is pending (matches_notebook != NULL)
 deriving DecidableEq, Repr
 
-def Variant.current : Variant := ⟨false, false⟩
-def Variant.fixed : Variant := ⟨true, true⟩
+def Variant.current : Variant := ⟨false, false, false⟩
+def Variant.fixed : Variant := ⟨true, true, true⟩
 
 /-! ### State -/
 
@@ -477,7 +478,8 @@ def afterLoop (P : Params) (cb : Nat → CbRet) (stack : Nat) (s : Sc) (it : It)
 def scanCall (P : Params) (v : Variant) (cb : Nat → CbRet) (stack : Nat) (s : Sc) (it : It) (w : World) : CallOut :=
   if !s.set.hasCallback then
     ⟨{ s with core := exitClean s.core .callbackRequired }, it, w, [], .callbackRequired⟩
-  else if it.lastError = .blockNotReady then
+  else if decide (it.lastError = .blockNotReady) && (s.core.notebook || !v.resumeNeedsPending) then
+    -- continuation (:486): the previous call returned ERROR_BLOCK_NOT_READY (and, with the fix, its state is still there)
     afterLoop P cb stack s it (blockLoop P cb s.set it.rest it.sched s.core w)
   else
     afterLoop P cb stack s it (blockLoop P cb s.set it.all it.sched (freshInit P v s.core w) w)
